@@ -19,7 +19,8 @@ def main():
     checks = sys.argv[4:] or [prop]
     patch = os.path.join(src, 'patch.diff')
     demo = os.path.join(src, 'demo.py')
-    w = '/tmp/seed_eval_w'
+    lane = os.environ.get('SEED_LANE', '')
+    w = '/tmp/seed_eval_w' + lane
     sh(f'git -C /repo worktree remove --force {w}; rm -rf {w}')
     assert sh(f'git -C /repo worktree add -q {w} HEAD').returncode == 0
     res = {'property': prop, 'name': name}
@@ -42,7 +43,7 @@ def main():
     res['confirmed'] = bool(confirmed)
     if confirmed:
         # the checks run against a scratch worktree of /repo carrying the patch (VERIF_REPO), never against /repo itself
-        sr = '/tmp/seed_eval_repo'
+        sr = '/tmp/seed_eval_repo' + lane
         sh(f'git -C /repo worktree remove --force {sr}; rm -rf {sr}')
         assert sh(f'git -C /repo worktree add -q {sr} HEAD').returncode == 0
         try:
